@@ -72,3 +72,63 @@ def _parse(c):
         "max_table_entry_cnt == file_table_size // 24 and file_table_size == len(stream.content)",
     )
     lp.modifies("stream.cur").modifies("file_entries", ("list", "opaque"))
+
+
+# ---------------------------------------------------------------------------------------------------------------- C15
+# The same scan over a table stream that is a VIEW of a truncated image: reads of the view may raise SectorReadError.
+# construct wraps every failure of a stream read in StreamError (a ConstructError), so the scan declares ConstructError only:
+# a raw read of the view outside construct (or outside the try) would let SectorReadError escape and abort the whole export.
+from contracts.transcoder import VIEW  # noqa: E402
+
+
+@contract("VIEW.tell", abstract=True, note="the tell contract proved for every view class (C08)")
+def _vtell(c):
+    c.returns("int")
+    c.ensures("result == self.cur")
+    c.modifies()
+
+
+@contract("construct:Int16ul.parse_stream#view", abstract=True, assumed=True,
+          note="construct.stream_read wraps ANY exception of stream.read (SectorReadError included) in StreamError")
+def _i16v(c):
+    c.param("stream", VIEW)
+    c.returns("int")
+    c.raises("StreamError")
+    c.ensures("stream.cur == old(stream.cur) + 2 and result >= 0")
+    c.modifies("stream.cur")
+
+
+@contract("construct:FileEntryConstruct.parse_stream#view", abstract=True, assumed=True,
+          note="as construct:FileEntryConstruct.parse_stream; read failures of the view surface as StreamError (ConstructError)")
+def _fev(c):
+    c.param("stream", VIEW)
+    c.returns(("rec", "FileEntryContainer", {"name": "str", "file_type": "int", "size": "int", "start": "int", "file_stream": ("drop",)}))
+    c.raises("ConstructError")
+    c.raises("RequestedInvalidSector")
+    c.ensures("stream.cur == old(stream.cur) + 24")
+    c.modifies("stream.cur")
+
+
+@contract(FE + "FileEntriesAdapter._parse#cut", source_key=FE + "FileEntriesAdapter._parse", props=["C15"], proof_only=True)
+def _parse_cut(c):
+    c.self_obj(("self", "smpl_extract.akai.file_entry:FileEntriesAdapter", {"sat": ("const", None), "subcon": ("drop",)}))
+    c.param("stream", VIEW)
+    c.param("context", ("drop",))
+    c.param("path", ("const", None))
+    c.abstract_calls = {
+        "pull_child_info": "smpl_extract.util.constructs:pull_child_info#abstract",
+        "self.subcon.sizeof": "construct:FileEntryConstruct.sizeof",
+        "Int16ul.parse_stream": "construct:Int16ul.parse_stream#view",
+        "self.subcon.parse_stream": "construct:FileEntryConstruct.parse_stream#view",
+        "Lazy(FileAdapter(this._.sat, FileConstruct)).parse_stream": "construct:Lazy(FileAdapter).parse_stream",
+    }
+    c.requires("stream.cur >= 0")
+    # nothing but a construct error may leave the scan: no SectorReadError of the truncated view
+    c.raises("ConstructError")
+    lp = c.loop(0)
+    lp.invariant(
+        "table_entry_size == 24",
+        "stream.cur == 24 * _i0",
+        "max_table_entry_cnt == file_table_size // 24 and file_table_size == len(stream.content)",
+    )
+    lp.modifies("stream.cur").modifies("file_entries", ("list", "opaque"))
